@@ -6,6 +6,10 @@
 //! Alphabet: `Absent`; `File(size, variant, mtime)`; `Dir(names, mtime)` with modification times set explicitly to one
 //! of two fixed instants (no sleeping, no dependence on timer granularity). Every state is materialised by removing
 //! whatever is at the path, creating the new state, and setting the mtime last.
+//! `Link(target)`: the path is a symbolic link to a regular file / directory living next to it (target with an explicit
+//! mtime, link created afterwards so its own lstat mtime differs); for every oracle it is exactly its target's state.
+//! Going from one link state to another keeps the link and modifies the target (through the link for file -> file,
+//! directly otherwise). No dangling links, no link chains or loops.
 //!
 //! Phases (all exhaustive over the tier's alphabet, smallest states first):
 //! * `write-open`: `path.write` on every prior state (creates / truncates + readable+writable handle / refuses dir).
@@ -106,16 +110,22 @@ pub fn extra_names() -> Vec<(Name, &'static str)> {
     (Name::new(b"b\na"), "same, other read_dir order"),
     (long(b'0'), "200 bytes, differs from the other long name only in the last byte"),
     (long(b'1'), "200 bytes"),
+    (Name::new(b".hidden"), "dot-file (a listing that skips names starting with '.' drops it)"),
+    (Name::new(b".a"), "dot-file next to 'a': {a}, {a, .a} and {.a} are three different name sets"),
+    (Name::new(b"..x"), "starts with two dots but is neither '.' nor '..'"),
   ]
 }
 
-/// Name sets over the extra names: every subset of at most two extra names, plus every pair (one of the six ASCII
-/// names, one extra name). Smallest first.
+/// The extra names form two groups: dot-names (starting with '.') and all others (encoding, case, delimiter, length).
+fn name_group(n: &Name) -> u8 { n.0.first().map_or(0, |b| (*b == b'.') as u8) }
+
+/// Name sets over the extra names: every single extra name, every pair of two extra names of the same group, plus
+/// every pair (one of the six ASCII names, one extra name). Smallest first.
 pub fn extra_name_sets(extra: &[Name]) -> Vec<Vec<Name>> {
   let mut sets: Vec<Vec<Name>> = Vec::new();
   for (i, a) in extra.iter().enumerate() {
     sets.push(vec![a.clone()]);
-    if MAX_EXTRA_NAMES >= 2 { for b in &extra[i + 1..] { sets.push(vec![a.clone(), b.clone()]); } }
+    if MAX_EXTRA_NAMES >= 2 { for b in &extra[i + 1..] { if name_group(a) == name_group(b) { sets.push(vec![a.clone(), b.clone()]); } } }
     for o in NAME_POOL { sets.push(vec![Name::new(o.as_bytes()), a.clone()]); }
   }
   for s in sets.iter_mut() { s.sort(); }
@@ -183,6 +193,11 @@ pub enum St {
   File { size: usize, var: Variant, mt: u8 },
   /// `names` is sorted and duplicate free; entries are created in this order as empty files.
   Dir { names: Vec<Name>, mt: u8 },
+  /// The path is a symbolic link to a regular file or directory (never to nothing, never to a link) that lives
+  /// next to the path in the scratch directory. The target has the explicit mtime of its state; the link's own
+  /// (lstat) mtime is the wall-clock time of its creation, i.e. different from both logical instants. For every oracle
+  /// this state is exactly its target's state: the path resolves to it.
+  Link { target: Box<St> },
 }
 
 #[derive(Clone, Copy, PartialEq, Eq, PartialOrd, Ord, Hash, Debug)]
@@ -191,18 +206,22 @@ pub enum Kind { Absent, File, Dir }
 impl Kind { fn as_str(self) -> &'static str { match self { Kind::Absent => "absent", Kind::File => "file", Kind::Dir => "dir" } } }
 
 impl St {
-  pub fn kind(&self) -> Kind { match self { St::Absent => Kind::Absent, St::File { .. } => Kind::File, St::Dir { .. } => Kind::Dir } }
-  pub fn exists(&self) -> bool { !matches!(self, St::Absent) }
-  pub fn mtime(&self) -> Option<u8> { match self { St::Absent => None, St::File { mt, .. } | St::Dir { mt, .. } => Some(*mt) } }
+  /// What the path resolves to: the target for a symbolic link, the state itself otherwise.
+  pub fn resolved(&self) -> &St { match self { St::Link { target } => target.resolved(), other => other } }
+  pub fn is_link(&self) -> bool { matches!(self, St::Link { .. }) }
+  pub fn kind(&self) -> Kind { match self.resolved() { St::Absent => Kind::Absent, St::File { .. } => Kind::File, St::Dir { .. } => Kind::Dir, St::Link { .. } => unreachable!() } }
+  pub fn exists(&self) -> bool { !matches!(self.resolved(), St::Absent) }
+  pub fn mtime(&self) -> Option<u8> { match self.resolved() { St::File { mt, .. } | St::Dir { mt, .. } => Some(*mt), _ => None } }
   /// File content (None for non-files).
   pub fn content(&self) -> Option<Vec<u8>> {
-    match self { St::File { size, var, .. } => Some(content(*size, *var)), _ => None }
+    match self.resolved() { St::File { size, var, .. } => Some(content(*size, *var)), _ => None }
   }
   pub fn to_json(&self) -> Value {
     match self {
       St::Absent => json!({"kind": "absent"}),
       St::File { size, var, mt } => json!({"kind": "file", "size": size, "variant": var.as_str(), "mtime": mt_name(*mt)}),
       St::Dir { names, mt } => json!({"kind": "dir", "names": names_json(names), "mtime": mt_name(*mt)}),
+      St::Link { target } => json!({"kind": "symlink", "target": target.to_json()}),
     }
   }
   pub fn from_json(v: &Value) -> Result<St, String> {
@@ -211,6 +230,11 @@ impl St {
     };
     match v.get("kind").and_then(|k| k.as_str()) {
       Some("absent") => Ok(St::Absent),
+      Some("symlink") => {
+        let target = St::from_json(v.get("target").ok_or("symlink state without target")?)?;
+        if !matches!(target, St::File { .. } | St::Dir { .. }) { return Err("a symlink state needs a file or directory target (no dangling links, no chains)".into()); }
+        Ok(St::Link { target: Box::new(target) })
+      }
       Some("file") => {
         let size = v.get("size").and_then(|s| s.as_u64()).ok_or("file state without size")? as usize;
         if size > (1 << 26) { return Err("file size too large".into()); }
@@ -316,6 +340,21 @@ pub fn alphabet(sizes: &[usize], sets: &[Vec<Name>]) -> Vec<St> {
   out
 }
 
+/// Symbolic-link states (both tiers): links to files (empty; larger than the read buffer with two contents and two
+/// mtimes, so that "target modified" covers content-only and mtime-only changes) and links to directories (three
+/// listings, two mtimes). No dangling links, no link chains or loops.
+pub fn link_states() -> Vec<St> {
+  let l = |t: St| St::Link { target: Box::new(t) };
+  let d = |names: &[&[u8]], mt: u8| { let mut n: Vec<Name> = names.iter().map(|s| Name::new(s)).collect(); n.sort(); St::Dir { names: n, mt } };
+  vec![
+    l(St::File { size: 0, var: Variant::Base, mt: 0 }),
+    l(St::File { size: 8193, var: Variant::Base, mt: 0 }),
+    l(St::File { size: 8193, var: Variant::Base, mt: 1 }),
+    l(St::File { size: 8193, var: Variant::LastDiffers, mt: 0 }),
+    l(d(&[], 0)), l(d(&[b"a"], 0)), l(d(&[b"a"], 1)), l(d(&[b"a", b"b"], 0)),
+  ]
+}
+
 /// Small alphabet for the quick tier's length-3 sequences.
 fn core_alphabet() -> Vec<St> {
   let mut out = alphabet(&[0, 1, 8193], &[]);
@@ -378,6 +417,8 @@ impl Expect {
 
 /// The reference relation. `untouched`: the path was not touched between stamp and check (then `s1 == s2`).
 pub fn reference(ck: Ck, s1: &St, s2: &St, untouched: bool) -> (Expect, &'static str) {
+  // A symbolic link is, for every checker, what it resolves to.
+  let (s1, s2) = (s1.resolved(), s2.resolved());
   if untouched {
     debug_assert!(s1 == s2);
     return (Expect::Consistent, "C13/untouched-consistent");
@@ -517,8 +558,36 @@ struct Ctx {
   /// with `rename` and moved back when the state is left: `mkdir`/`rmdir` cost ~0.5 ms each on this file system.
   pool_dir: PathBuf,
   pool: BTreeMap<Vec<Name>, PathBuf>,
-  /// The pooled directory currently sitting at the path.
-  at_path: Option<PathBuf>,
+  /// The pooled directory currently in use: (where it sits: the path or the link target location, its pool home).
+  at_path: Option<(PathBuf, PathBuf)>,
+  /// Where the target of a symbolic-link state lives: a sibling of the path.
+  target: PathBuf,
+  /// Something may be at the target location.
+  target_used: bool,
+}
+
+/// Replaces every `SystemTime` debug text that is not one of the two logical instants (e.g. a link's own lstat
+/// mtime) by a fixed token, so that the two runs of a replay compare equal.
+fn mask_wall_clock(text: &str) -> String {
+  let mut out = String::new();
+  let mut rest = text;
+  while let Some(i) = rest.find("tv_sec: ") {
+    let (head, tail) = rest.split_at(i + "tv_sec: ".len());
+    out.push_str(head);
+    let digits = tail.chars().take_while(|c| c.is_ascii_digit()).count();
+    let secs: Option<u64> = tail[..digits].parse().ok();
+    if secs.map_or(false, |s| T_SECS.contains(&s)) {
+      out.push_str(&tail[..digits]);
+      rest = &tail[digits..];
+    } else {
+      out.push_str("<wall-clock>");
+      let after = &tail[digits..];
+      let skip = after.strip_prefix(", tv_nsec: ").map(|a| ", tv_nsec: ".len() + a.chars().take_while(|c| c.is_ascii_digit()).count()).unwrap_or(0);
+      rest = &after[skip..];
+    }
+  }
+  out.push_str(rest);
+  out
 }
 
 fn io_ctx<T>(r: io::Result<T>, what: &str, path: &Path) -> H<T> { r.map_err(|e| format!("{} {}: {}", what, path.display(), e)) }
@@ -539,14 +608,14 @@ impl Ctx {
     Ok(Ctx {
       path: dir.join("p"), pie: Pie::default(), tally: Tally::default(), order: (0, 0), ck: None,
       observations: if replay { Some(Vec::new()) } else { None }, content_cache: BTreeMap::new(),
-      pool_dir: dir.to_path_buf(), pool: BTreeMap::new(), at_path: None,
+      pool_dir: dir.to_path_buf(), pool: BTreeMap::new(), at_path: None, target: dir.join("t"), target_used: false,
     })
   }
 
-  fn observe(&mut self, f: impl FnOnce() -> String) { if let Some(o) = self.observations.as_mut() { o.push(f()); } }
+  fn observe(&mut self, f: impl FnOnce() -> String) { if let Some(o) = self.observations.as_mut() { o.push(mask_wall_clock(&f())); } }
 
   fn content_of(&mut self, st: &St) -> Vec<u8> {
-    match st {
+    match st.resolved() {
       St::File { size, var, .. } => self.content_cache.entry((*size, *var)).or_insert_with(|| content(*size, *var)).clone(),
       _ => Vec::new(),
     }
@@ -558,21 +627,36 @@ impl Ctx {
     self.tally.findings.push(Finding { order: self.order, oracle, what, replay });
   }
 
-  /// Removes whatever is at the path (a pooled directory goes back to the pool).
-  fn clear(&mut self) -> H<()> {
-    if let Some(home) = self.at_path.take() {
-      match fs::symlink_metadata(&self.path) {
-        Ok(m) if m.is_dir() => return io_ctx(fs::rename(&self.path, &home), "move dir back to pool", &self.path),
-        _ => return Err(format!("pooled directory vanished from {}", self.path.display())),
+  /// Removes whatever is at `loc` (a pooled directory goes back to the pool).
+  fn clear_at(&mut self, loc: &Path) -> H<()> {
+    if self.at_path.as_ref().map_or(false, |(l, _)| l == loc) {
+      let (_, home) = self.at_path.take().unwrap();
+      match fs::symlink_metadata(loc) {
+        Ok(m) if m.is_dir() => return io_ctx(fs::rename(loc, &home), "move dir back to pool", loc),
+        _ => return Err(format!("pooled directory vanished from {}", loc.display())),
       }
     }
-    match fs::symlink_metadata(&self.path) {
+    match fs::symlink_metadata(loc) {
       Err(e) if e.kind() == io::ErrorKind::NotFound => Ok(()),
-      Err(e) => Err(format!("stat {}: {}", self.path.display(), e)),
-      Ok(m) if m.is_dir() => io_ctx(fs::remove_dir_all(&self.path), "remove dir", &self.path),
-      Ok(_) => io_ctx(fs::remove_file(&self.path), "remove file", &self.path),
+      Err(e) => Err(format!("stat {}: {}", loc.display(), e)),
+      Ok(m) if m.is_dir() => io_ctx(fs::remove_dir_all(loc), "remove dir", loc),
+      Ok(_) => io_ctx(fs::remove_file(loc), "remove file or link", loc),
     }
   }
+
+  /// Removes whatever is at the path: a link and its target, a file, a directory.
+  fn clear(&mut self) -> H<()> {
+    let path = self.path.clone();
+    self.clear_at(&path)?;
+    if self.target_used {
+      let t = self.target.clone();
+      self.clear_at(&t)?;
+      self.target_used = false;
+    }
+    Ok(())
+  }
+
+  fn path_is_link(&self) -> bool { fs::symlink_metadata(&self.path).map(|m| m.file_type().is_symlink()).unwrap_or(false) }
 
   /// Builds the directory and verifies that the file system lists exactly these names, byte for byte (a file
   /// system that refuses, normalises or case-folds a name is an engine error naming the entry).
@@ -597,21 +681,20 @@ impl Ctx {
     Ok(l)
   }
 
-  /// Materialises `st` with std::fs only: remove what is there, create the state, set the mtime last, read the mtime
-  /// back. `fresh_dir`: build the directory in place instead of moving a pre-built one (same content) to the path.
-  fn materialise_with(&mut self, st: &St, fresh_dir: bool) -> H<()> {
-    self.clear()?;
+  /// Creates the non-link state `st` at `loc` (which is empty): content / entries first, the mtime last.
+  fn place(&mut self, st: &St, loc: &Path, fresh_dir: bool) -> H<()> {
     match st {
       St::Absent => {}
+      St::Link { .. } => return Err("link chains are outside the alphabet".into()),
       St::File { mt, .. } => {
         let bytes = self.content_of(st);
-        let mut f = io_ctx(File::create(&self.path), "create", &self.path)?;
-        io_ctx(f.write_all(&bytes), "write", &self.path)?;
-        io_ctx(f.set_modified(instant(*mt)), "set_modified (file)", &self.path)?;
+        let mut f = io_ctx(File::create(loc), "create", loc)?;
+        io_ctx(f.write_all(&bytes), "write", loc)?;
+        io_ctx(f.set_modified(instant(*mt)), "set_modified (file)", loc)?;
       }
       St::Dir { names, mt } => {
         if fresh_dir {
-          Self::build_dir(&self.path, names)?;
+          Self::build_dir(loc, names)?;
         } else {
           let home = match self.pool.get(names) {
             Some(h) => h.clone(),
@@ -624,17 +707,71 @@ impl Ctx {
               h
             }
           };
-          io_ctx(fs::rename(&home, &self.path), "move pooled dir to path", &home)?;
-          self.at_path = Some(home);
+          io_ctx(fs::rename(&home, loc), "move pooled dir into place", &home)?;
+          self.at_path = Some((loc.to_path_buf(), home));
         }
-        let d = io_ctx(File::open(&self.path), "open dir", &self.path)?;
-        io_ctx(d.set_modified(instant(*mt)), "set_modified (dir)", &self.path)?;
+        let d = io_ctx(File::open(loc), "open dir", loc)?;
+        io_ctx(d.set_modified(instant(*mt)), "set_modified (dir)", loc)?;
       }
     }
-    self.verify_mtime(st)?;
+    Ok(())
+  }
+
+  fn count_state(&mut self, st: &St) {
     self.tally.materialisations += 1;
     if !self.tally.states.contains(st) { self.tally.states.insert(st.clone()); }
+  }
+
+  /// Materialises `st` from scratch with std::fs only: remove what is there (link and target included), create the
+  /// state, set the mtime last, read it back. A symbolic-link state: target first (next to the path, explicit
+  /// mtime), then the link, so the link's own mtime is "now". `fresh_dir`: build a directory in place instead of
+  /// moving a pre-built one (same content) there.
+  fn materialise_with(&mut self, st: &St, fresh_dir: bool) -> H<()> {
+    self.clear()?;
+    let (path, target) = (self.path.clone(), self.target.clone());
+    match st {
+      St::Link { target: t } => {
+        self.place(t, &target, fresh_dir)?;
+        self.target_used = true;
+        io_ctx(std::os::unix::fs::symlink(&target, &path), "create symbolic link", &path)?;
+      }
+      other => self.place(other, &path, fresh_dir)?,
+    }
+    self.verify_mtime(st)?;
+    self.count_state(st);
     Ok(())
+  }
+
+  /// Moves from the current state to `st` the way the world would: if the path is a symbolic link and `st` is one
+  /// too, the LINK stays and only its TARGET is modified -- file to file: through the link, in place (open the path
+  /// for writing, truncate, write, set the mtime; same inode); otherwise directly (the target is removed and
+  /// re-created next to the path). Every other transition re-materialises from scratch.
+  fn materialise_after(&mut self, st: &St) -> H<()> {
+    let t0 = Instant::now();
+    let r = (|| -> H<()> {
+      let St::Link { target: new_target } = st else { return self.materialise_with(st, false); };
+      if !self.path_is_link() { return self.materialise_with(st, false); }
+      let (path, target) = (self.path.clone(), self.target.clone());
+      let cur_is_file = fs::metadata(&path).map(|m| m.is_file()).unwrap_or(false);
+      match &**new_target {
+        St::File { mt, .. } if cur_is_file => {
+          let bytes = self.content_of(st);
+          let mut f = io_ctx(File::options().write(true).truncate(true).open(&path), "open target through the link", &path)?;
+          io_ctx(f.write_all(&bytes), "write through the link", &path)?;
+          io_ctx(f.set_modified(instant(*mt)), "set_modified (through the link)", &path)?;
+        }
+        other => {
+          self.clear_at(&target)?;
+          self.place(other, &target, false)?;
+          self.target_used = true;
+        }
+      }
+      self.verify_mtime(st)?;
+      self.count_state(st);
+      Ok(())
+    })();
+    self.tally.t_materialise += t0.elapsed();
+    r
   }
 
   fn materialise(&mut self, st: &St) -> H<()> {
@@ -663,7 +800,9 @@ impl Ctx {
         if got == instant(mt) { Ok(()) } else { Err(format!("explicit mtime not effective on {}: wanted {:?}, got {:?}", self.path.display(), instant(mt), got)) }
       }
       (want, got) => Err(format!("materialisation of {:?} failed: mtime wanted {:?}, metadata {:?}", st, want, got.map(|m| m.is_dir()))),
-    }
+    }?;
+    if self.path_is_link() != st.is_link() { return Err(format!("materialisation of {:?} failed: path is a symbolic link = {}", st, self.path_is_link())); }
+    Ok(())
   }
 }
 
@@ -798,7 +937,7 @@ fn open_reader(ctx: &mut Ctx, unit: &Unit, st: &St) -> Option<OpenRead> {
   let reader = settle(ctx, unit, Some(Route::Reader), "Resource::read", st, r)?;
   // Oracle: the right `OpenRead` variant.
   ctx.tally.eval("C13/read-variant");
-  let (ok, seen) = match (&reader, st) {
+  let (ok, seen) = match (&reader, st.resolved()) {
     (OpenRead::NonExistent, St::Absent) => (true, "NonExistent".to_string()),
     (OpenRead::File(_, m), St::File { size, .. }) => (m.is_file() && m.len() == *size as u64, format!("File(is_file={}, len={})", m.is_file(), m.len())),
     (OpenRead::Directory(m), St::Dir { .. }) => (m.is_dir(), format!("Directory(is_dir={})", m.is_dir())),
@@ -821,7 +960,7 @@ fn stamp_reader<C: ResourceChecker<PathBuf>>(c: &C, ctx: &mut Ctx, unit: &Unit, 
   let stamp = settle(ctx, unit, Some(Route::Reader), "stamp_reader", st, r)?;
   ctx.observe(|| format!("stamp_reader in {} = {:?}", st.to_json(), stamp));
   // Oracle: the same reader now yields the full content from offset 0.
-  if let St::File { .. } = st {
+  if let St::File { .. } = st.resolved() {
     ctx.tally.eval("C13/reader-rewound");
     let want = ctx.content_of(st);
     let got = guard(|| {
@@ -858,14 +997,22 @@ fn open_writer(ctx: &mut Ctx, unit: &Unit, route: Option<Route>, st: &St) -> Opt
 /// larger junk file with the other mtime at the path (so that `write` has to truncate); otherwise the prior state is
 /// whatever non-directory is at the path. `Ok(None)`: a finding was recorded.
 fn produce_via_writer(ctx: &mut Ctx, unit: &Unit, st: &St, junk_prior: bool) -> H<Option<File>> {
-  let St::File { size, mt, .. } = st else { return Err("produce_via_writer on a non-file state".into()); };
-  let path = ctx.path.clone();
-  if junk_prior {
+  let St::File { size, mt, .. } = st.resolved() else { return Err("produce_via_writer on a non-file state".into()); };
+  let (path, target) = (ctx.path.clone(), ctx.target.clone());
+  // For a symbolic-link state the prior file lives at the target location and the path is a link to it: `write`
+  // has to truncate the TARGET and leave the link alone.
+  let link_to_file_in_place = ctx.path_is_link() && fs::metadata(&path).map(|m| m.is_file()).unwrap_or(false);
+  if junk_prior || (st.is_link() && !link_to_file_in_place) {
     ctx.clear()?;
-    let mut f = io_ctx(File::create(&path), "create junk", &path)?;
-    io_ctx(f.write_all(&vec![0xEEu8; size + 7]), "write junk", &path)?;
-    io_ctx(f.set_modified(instant(1 - *mt)), "set_modified (junk)", &path)?;
-  } else if fs::symlink_metadata(&path).map(|m| m.is_dir()).unwrap_or(false) {
+    let loc = if st.is_link() { &target } else { &path };
+    let mut f = io_ctx(File::create(loc), "create junk", loc)?;
+    io_ctx(f.write_all(&vec![0xEEu8; if junk_prior { size + 7 } else { 0 }]), "write junk", loc)?;
+    io_ctx(f.set_modified(instant(1 - *mt)), "set_modified (junk)", loc)?;
+    if st.is_link() {
+      ctx.target_used = true;
+      io_ctx(std::os::unix::fs::symlink(&target, &path), "create symbolic link", &path)?;
+    }
+  } else if !st.is_link() && fs::symlink_metadata(&path).map(|m| m.is_dir() || m.file_type().is_symlink()).unwrap_or(false) {
     ctx.clear()?;
   }
   let Some(mut w) = open_writer(ctx, unit, Some(Route::Writer), st) else { return Ok(None); };
@@ -892,9 +1039,17 @@ fn produce_via_writer(ctx: &mut Ctx, unit: &Unit, st: &St, junk_prior: bool) -> 
     ctx.finding("C13/write-produces-content", obs.clone(), unit.replay(ctx.ck, Some(Route::Writer), None, "file holds exactly the written content", &obs));
     return Ok(None);
   }
+  if st.is_link() {
+    let kept = ctx.path_is_link() && fs::read(&target).map(|b| b == bytes).unwrap_or(false);
+    if !kept {
+      let obs = "after path.write through a symbolic link the path is no longer a link to the written file".to_string();
+      ctx.observe(|| obs.clone());
+      ctx.finding("C13/write-produces-content", obs.clone(), unit.replay(ctx.ck, Some(Route::Writer), None, "link kept, target holds the written content", &obs));
+      return Ok(None);
+    }
+  }
   ctx.verify_mtime(st)?;
-  ctx.tally.materialisations += 1;
-  if !ctx.tally.states.contains(st) { ctx.tally.states.insert(st.clone()); }
+  ctx.count_state(st);
   Ok(Some(w))
 }
 
@@ -974,7 +1129,7 @@ fn check_and_judge<C: ResourceChecker<PathBuf>>(
     ctx.tally.samples.insert(key, (ctx.order, v));
   }
   if verdict == Verdict::Violation {
-    if let (Ck::Hash, St::Dir { names: a, .. }, St::Dir { names: b, .. }) = (ck, from, to) {
+    if let (Ck::Hash, St::Dir { names: a, .. }, St::Dir { names: b, .. }) = (ck, from.resolved(), to.resolved()) {
       if a != b { ctx.tally.collisions.insert((a.clone(), b.clone())); }
     }
     let what = format!(
@@ -998,7 +1153,7 @@ where C: ResourceChecker<PathBuf>, C::Stamp: PartialEq {
     let sp = if want(Route::Path) { stamp_path(c, ctx, unit, s1) } else { None };
     let sr = if want(Route::Reader) { stamp_reader(c, ctx, unit, s1) } else { None };
     agree(ctx, unit, "C13/routes-agree", s1, Route::Path, &sp, Route::Reader, &sr);
-    if let Some(s2) = s2 { ctx.materialise(s2)?; }
+    if let Some(s2) = s2 { ctx.materialise_after(s2)?; }
     if let Some(s) = &sp { check_and_judge(c, ck, ctx, unit, Route::Path, s1, target, untouched, None, s); }
     if let Some(s) = &sr { check_and_judge(c, ck, ctx, unit, Route::Reader, s1, target, untouched, None, s); }
   }
@@ -1009,7 +1164,7 @@ where C: ResourceChecker<PathBuf>, C::Stamp: PartialEq {
       let sp = stamp_path(c, ctx, unit, s1);
       let sw = stamp_writer(c, ctx, unit, Route::Writer, s1, w);
       agree(ctx, unit, "C13/routes-agree", s1, Route::Path, &sp, Route::Writer, &sw);
-      if let Some(s2) = s2 { ctx.materialise(s2)?; }
+      if let Some(s2) = s2 { ctx.materialise_after(s2)?; }
       if let Some(s) = &sw { check_and_judge(c, ck, ctx, unit, Route::Writer, s1, target, untouched, None, s); }
     }
   }
@@ -1019,7 +1174,7 @@ where C: ResourceChecker<PathBuf>, C::Stamp: PartialEq {
       let sp = stamp_path(c, ctx, unit, s1);
       let sw = stamp_writer(c, ctx, unit, Route::WriterRemoved, s1, w);
       agree(ctx, unit, "C13/writer-removed-absent", s1, Route::Path, &sp, Route::WriterRemoved, &sw);
-      if let Some(s2) = s2 { ctx.materialise(s2)?; }
+      if let Some(s2) = s2 { ctx.materialise_after(s2)?; }
       if let Some(s) = &sw { check_and_judge(c, ck, ctx, unit, Route::WriterRemoved, s1, target, untouched, None, s); }
     }
   }
@@ -1061,10 +1216,10 @@ fn run_seq(ctx: &mut Ctx, unit: &Unit, states: &[St; 3]) -> H<()> {
   ctx.clear()?; // the sequence starts from an absent path
   for j in 0..3 {
     let st = &states[j];
-    let writer = match st {
-      St::File { .. } => match produce_via_writer(ctx, unit, st, false)? { Some(w) => Some(w), None => return Ok(()) },
-      St::Absent => match produce_absent_via_writer(ctx, unit)? { Some(w) => Some(w), None => return Ok(()) },
-      St::Dir { .. } => { ctx.materialise(st)?; None }
+    let writer = match st.kind() {
+      Kind::File => match produce_via_writer(ctx, unit, st, false)? { Some(w) => Some(w), None => return Ok(()) },
+      Kind::Absent => match produce_absent_via_writer(ctx, unit)? { Some(w) => Some(w), None => return Ok(()) },
+      Kind::Dir => { ctx.materialise_after(st)?; None }
     };
     let (w1, w2) = match &writer {
       Some(w) => (Some(io_ctx(w.try_clone(), "dup writer", &ctx.path)?), Some(io_ctx(w.try_clone(), "dup writer", &ctx.path)?)),
@@ -1087,21 +1242,24 @@ fn run_write_open(ctx: &mut Ctx, unit: &Unit, prior: &St) -> H<()> {
     Ok(r) => r,
     Err(p) => { settle::<(), FsError>(ctx, unit, None, "Resource::write", prior, Err(p)); return Ok(()); }
   };
-  match prior {
+  let link_note = |ctx: &Ctx| -> &'static str { if !prior.is_link() { "" } else if ctx.path_is_link() { ", link kept" } else { ", LINK REPLACED" } };
+  let link_want = if prior.is_link() { ", link kept" } else { "" };
+  match prior.resolved() {
+    St::Link { .. } => unreachable!(),
     St::Dir { names, mt } => {
       ctx.tally.eval("C13/write-refuses-dir");
       let refused = r.is_err();
       let meta = io_ctx(fs::metadata(&path), "stat", &path)?;
       let listing = if meta.is_dir() { Ctx::listing(&path)? } else { Vec::new() };
-      let intact = meta.is_dir() && listing == *names && io_ctx(meta.modified(), "mtime", &path)? == instant(*mt);
-      let observed = format!("write -> {}, directory intact = {} (listing {:?})", match &r { Ok(_) => "Ok(file)".to_string(), Err(e) => format!("Err({:?})", e) }, intact, listing);
+      let intact = meta.is_dir() && listing == *names && io_ctx(meta.modified(), "mtime", &path)? == instant(*mt) && ctx.path_is_link() == prior.is_link();
+      let observed = format!("write -> {}, directory intact = {} (listing {:?}{})", match &r { Ok(_) => "Ok(file)".to_string(), Err(e) => format!("Err({:?})", e) }, intact, listing, link_note(ctx));
       ctx.observe(|| observed.clone());
       if !refused || !intact {
         ctx.finding("C13/write-refuses-dir", format!("path.write on directory {}: {}", prior.to_json(), observed), unit.replay(ctx.ck, None, None, "Err(..) and directory intact", &observed));
       }
     }
     St::Absent | St::File { .. } => {
-      let oracle = if *prior == St::Absent { "C13/write-creates" } else { "C13/write-truncates" };
+      let oracle = if prior.kind() == Kind::Absent { "C13/write-creates" } else { "C13/write-truncates" };
       ctx.tally.eval(oracle);
       let mut w = match r {
         Ok(w) => w,
@@ -1113,12 +1271,13 @@ fn run_write_open(ctx: &mut Ctx, unit: &Unit, prior: &St) -> H<()> {
         }
       };
       let observed = match fs::metadata(&path) {
-        Ok(m) => format!("is_file={} len={}", m.is_file(), m.len()),
+        Ok(m) => format!("is_file={} len={}{}", m.is_file(), m.len(), link_note(ctx)),
         Err(e) => format!("no file ({})", e.kind()),
       };
+      let wanted = format!("is_file=true len=0{}", link_want);
       ctx.observe(|| format!("write-open on {}: {}", prior.to_json(), observed));
-      if observed != "is_file=true len=0" {
-        ctx.finding(oracle, format!("after path.write on {} the path is: {}", prior.to_json(), observed), unit.replay(ctx.ck, None, None, "is_file=true len=0", &observed));
+      if observed != wanted {
+        ctx.finding(oracle, format!("after path.write on {} the path is: {}", prior.to_json(), observed), unit.replay(ctx.ck, None, None, &wanted, &observed));
       }
       // The handle is writable and readable (checkers read the content through it).
       ctx.tally.eval("C13/write-handle-rw");
@@ -1313,12 +1472,17 @@ fn run_enumeration(args: &Args, root: &Path) -> i32 {
   let mut extended: Vec<St> = extra_files.iter().map(|(size, var)| St::File { size: *size, var: *var, mt: 0 }).collect();
   let n_ext_files = extended.len();
   extended.extend(extra_sets.iter().map(|names| St::Dir { names: names.clone(), mt: 0 }));
-  let alpha = alphabet(sizes, &sets);
-  let mut seq_alpha = match args.tier { Tier::Quick => core_alphabet(), Tier::Thorough => alpha.clone() };
+  let mut alpha = alphabet(sizes, &sets);
+  let n_plain = alpha.len();
+  let links = link_states();
+  alpha.extend(links.iter().cloned()); // symbolic-link states count as base states: all three checkers, all partners
+  let mut seq_alpha = match args.tier { Tier::Quick => core_alphabet(), Tier::Thorough => alpha[..n_plain].to_vec() };
   // Two non-UTF-8 single-name directories take part in the sequences as well.
   seq_alpha.extend(extended.iter().filter(|s| matches!(s, St::Dir { names, .. } if names.len() == 1 && std::str::from_utf8(&names[0].0).is_err())).take(2).cloned());
   // ... and two extra file contents (a NUL byte; 8392 bytes of 'x').
   seq_alpha.extend([St::File { size: 1, var: Variant::Zero, mt: 0 }, St::File { size: 8392, var: Variant::Uniform, mt: 0 }]);
+  // ... and two symbolic-link states (link to a file larger than the read buffer, link to a directory), unless present.
+  for l in [&links[1], &links[5]] { if !seq_alpha.contains(l) { seq_alpha.push(l.clone()); } }
   let plan = Plan::new(alpha, extended, seq_alpha);
 
   let threads = args.extra.iter().find_map(|a| a.strip_prefix("threads=").and_then(|n| n.parse::<usize>().ok()))
@@ -1401,7 +1565,15 @@ fn run_enumeration(args: &Args, root: &Path) -> i32 {
     "not_judged": total.outcomes[c as usize][OUT_NOT_JUDGED],
   });
   rep.set("states", json!(total.states.len()));
-  rep.set("alphabet_states", json!({"base": plan.n_base, "extended_files": n_ext_files, "extended_dirs": n - plan.n_base - n_ext_files, "total": n}));
+  rep.set("symlink_state_selection", json!(format!(
+    "{} symbolic-link states in both tiers (target next to the path with an explicit mtime, link created afterwards: its own lstat \
+     mtime is the wall clock): links to files (empty; 8193 bytes base at T1 and T2; 8193 bytes last-byte-differs at T1) and to \
+     directories ({{}}, {{a}} at T1 and T2, {{a,b}}). For every oracle a link state is its target's state. They are base states: write-open, \
+     untouched, and every ordered pair with every plain base state and with every link state under all three checkers and all \
+     routes (the writer route writes through the link). link -> link keeps the link and modifies the target (file -> file through \
+     the link in place, otherwise the target is re-created directly); link <-> plain re-materialises. Two of them take part in the \
+     sequences. No dangling links, chains or loops.", links.len())));
+  rep.set("alphabet_states", json!({"plain_base": n_plain, "symlinks": links.len(), "base": plan.n_base, "extended_files": n_ext_files, "extended_dirs": n - plan.n_base - n_ext_files, "total": n}));
   rep.set("file_state_selection", json!(format!(
     "base: sizes {:?} with the base pattern and its last-byte / first-byte variants ({} contents) at both mtimes; extended: {} extra \
      contents at mtime T1 only: for every size class s all-zero, uniform 'x', periodic 16-byte lines (s bytes) and base content + 1 / 2 \
@@ -1414,7 +1586,8 @@ fn run_enumeration(args: &Args, root: &Path) -> i32 {
   rep.set("pair_units", json!(total.pair_units));
   rep.set("dir_state_selection", json!(format!(
     "base: every subset of <= {} names of the {} ASCII names ({} sets) at both mtimes; extended: every subset of <= {} of the \
-     {} accepted extra names plus every pair (one ASCII name, one extra name) ({} sets) at mtime T1 only. write-open and \
+     {} accepted extra names within a group (dot-names .hidden / .a / ..x; all other extra names) plus every pair (one ASCII \
+     name, one extra name) ({} sets) at mtime T1 only. write-open and \
      untouched run on every state. pair phase: base x base with all three checkers; a pair involving an extended directory \
      runs HashChecker only (names are observed by no other checker) against every extended directory, every base directory at \
      T1, Absent and the smallest file, in both orders. seq phase: base alphabet (quick: core alphabet) plus two non-UTF-8 \
@@ -1448,7 +1621,8 @@ fn run_enumeration(args: &Args, root: &Path) -> i32 {
   rep.set("threads", json!(threads));
   rep.set("cpu_seconds", json!({"materialise": total.t_materialise.as_secs_f64(), "calls_into_pie": total.t_pie.as_secs_f64()}));
   rep.set("rule", json!(
-    "every state P of the alphabet: path.write on P; every (S1, checker, route): stamp then check untouched; every ordered \
+    "states: absent, regular file, directory, symbolic link to a regular file, symbolic link to a directory. \
+     every state P of the alphabet: path.write on P; every (S1, checker, route): stamp then check untouched; every ordered \
      pair (S1,S2) x {Exists,Modified,Hash} x routes {path, fresh reader, writer that produced S1 (files), writer whose file \
      was removed (absent)}: materialise S1 on the real file system, stamp, materialise S2, check, compare with the \
      reference relation; every length-3 sequence over the sequence alphabet with stamps of earlier states checked at later \
@@ -1458,11 +1632,13 @@ fn run_enumeration(args: &Args, root: &Path) -> i32 {
     "extra_file_contents": n_ext_files,
     "dir_name_pool": NAME_POOL, "dir_max_names": MAX_NAMES, "dir_name_sets": sets.len(),
     "dir_extra_names": extra.len(), "dir_extra_max_names": MAX_EXTRA_NAMES, "dir_extra_name_sets": extra_sets.len(),
+    "symlink_states": links.iter().map(|l| l.to_json()).collect::<Vec<_>>(),
     "mtimes_unix_s": T_SECS, "pair_alphabet": n, "sequence_alphabet": plan.seq_alpha.len(), "sequence_length": 3,
     "wall_cap_s": wall_cap, "file_system_dir": root.parent().map(|p| p.display().to_string()),
   }));
-  rep.assume("entry names are the six ASCII names and the listed extra names (non-UTF-8 bytes, multi-byte UTF-8, U+FFFD, case, space, newline, 200 bytes); directory entries are empty regular files");
+  rep.assume("entry names are the six ASCII names and the listed extra names (non-UTF-8 bytes, multi-byte UTF-8, U+FFFD, case, space, newline, 200 bytes, dot-names); directory entries are empty regular files");
   for (nm, e) in &names_skipped { rep.assume(&format!("entry name {:?} left out: {}", nm, e)); }
+  rep.assume("a symbolic link is judged exactly like the file or directory it resolves to; dangling links and link loops are outside the alphabet");
   rep.assume("hash checker: file<->directory changes and re-created directories with the same name set are recorded, not judged");
   rep.finish()
 }
@@ -1651,8 +1827,11 @@ mod test {
     assert_eq!(Name::new(b"a b").encoded(), "a%20b");
     assert!(Name::decode("a/b").is_err() && Name::decode("..").is_err() && Name::decode("%00").is_err() && Name::decode("").is_err());
     let k = extra.len();
+    let dots = extra.iter().filter(|n| n.0[0] == b'.').count();
+    assert_eq!(dots, 3);
     let sets = extra_name_sets(&extra);
-    assert_eq!(sets.len(), k + k * (k - 1) / 2 + k * NAME_POOL.len());
+    let c2 = |n: usize| n * (n - 1) / 2;
+    assert_eq!(sets.len(), k + c2(k - dots) + c2(dots) + k * NAME_POOL.len());
     let distinct: BTreeSet<&Vec<Name>> = sets.iter().collect();
     assert_eq!(distinct.len(), sets.len());
     let base: BTreeSet<Vec<Name>> = name_sets().into_iter().collect();
@@ -1661,11 +1840,49 @@ mod test {
     let has = |names: &[&[u8]]| { let mut v: Vec<Name> = names.iter().map(|b| Name::new(b)).collect(); v.sort(); sets.contains(&v) };
     assert!(has(&[b"\xFF"]) && has(&[b"\xFE"]) && has(&[b"x\xE9"]) && has(&[b"x\xE8"]) && has(&["\u{FFFD}".as_bytes()]));
     assert!(has(&[b"A"]) && has(&[b"a", b"A"]) && has(&[b"a\nb"]) && has(&[b"a b"]));
+    // Dot-names: {.a} and {a, .a} (next to the base set {a}), {.hidden}, {..x}, and pairs of dot-names.
+    assert!(has(&[b".a"]) && has(&[b"a", b".a"]) && has(&[b".hidden"]) && has(&[b"..x"]) && has(&[b".a", b".hidden"]) && !has(&[b".a", b"A"]));
+    assert!(base.contains(&vec![Name::new(b"a")]) && base.contains(&Vec::new()));
+    let dd2 = |n: &[&[u8]]| { let mut v: Vec<Name> = n.iter().map(|b| Name::new(b)).collect(); v.sort(); St::Dir { names: v, mt: 0 } };
+    assert_eq!(reference(Ck::Hash, &dd2(&[b"a"]), &dd2(&[b"a", b".a"]), false).0, Expect::Inconsistent);
+    assert_eq!(reference(Ck::Hash, &dd2(&[]), &dd2(&[b".hidden"]), false).0, Expect::Inconsistent);
     // Different name sets are judged "inconsistent" whatever the bytes.
     let dd = |b: &[u8]| St::Dir { names: vec![Name::new(b)], mt: 0 };
     assert_eq!(reference(Ck::Hash, &dd(b"\xFF"), &dd(b"\xFE"), false), (Expect::Inconsistent, "C13/hash-dir-nameset"));
     assert_eq!(reference(Ck::Hash, &dd(b"\xFF"), &dd("\u{FFFD}".as_bytes()), false).0, Expect::Inconsistent);
     assert_eq!(reference(Ck::Hash, &dd(b"\xFF"), &dd(b"\xFF"), false).0, Expect::ConsistentUnlessReordered);
+  }
+
+  #[test]
+  fn link_states_are_their_targets() {
+    let links = link_states();
+    assert_eq!(links.len(), 8);
+    let base = alphabet(FULL_SIZES, &name_sets());
+    for l in &links {
+      let St::Link { target } = l else { panic!() };
+      assert!(matches!(**target, St::File { .. } | St::Dir { .. }));
+      assert!(l.is_link() && !target.is_link() && l.resolved() == &**target);
+      assert_eq!((l.kind(), l.exists(), l.mtime(), l.content()), (target.kind(), true, target.mtime(), target.content()));
+      assert_eq!(St::from_json(&l.to_json()).unwrap(), *l);
+      assert_eq!(Route::Writer.applies(l.kind()), target.kind() == Kind::File);
+      for ck in Ck::ALL {
+        assert_eq!(reference(ck, l, l, true).0, Expect::Consistent);
+        for o in base.iter().chain(links.iter()) {
+          assert_eq!(reference(ck, l, o, false), reference(ck, target, o, false));
+          assert_eq!(reference(ck, o, l, false), reference(ck, o, target, false));
+        }
+      }
+    }
+    // target modified: content only / mtime only.
+    assert_eq!(reference(Ck::Hash, &links[1], &links[3], false).0, Expect::Inconsistent);
+    assert_eq!(reference(Ck::Modified, &links[1], &links[3], false).0, Expect::Consistent);
+    assert_eq!(reference(Ck::Hash, &links[1], &links[2], false).0, Expect::Consistent);
+    assert_eq!(reference(Ck::Modified, &links[1], &links[2], false).0, Expect::Inconsistent);
+    assert_eq!(reference(Ck::Hash, &links[5], &links[7], false).0, Expect::Inconsistent);
+    assert!(St::from_json(&json!({"kind": "symlink", "target": {"kind": "absent"}})).is_err());
+    assert!(St::from_json(&json!({"kind": "symlink", "target": links[0].to_json()})).is_err());
+    assert_eq!(mask_wall_clock("Some(SystemTime { tv_sec: 1790000123, tv_nsec: 42 }) vs SystemTime { tv_sec: 1500000000, tv_nsec: 0 }"),
+      "Some(SystemTime { tv_sec: <wall-clock> }) vs SystemTime { tv_sec: 1500000000, tv_nsec: 0 }");
   }
 
   #[test]
